@@ -64,6 +64,34 @@ def scan_module_state(rep):
                        f"{len(tables)} module-level mutable objects scanned")
 
 
+def scan_global_rebinding(rep):
+    """process-wide state through rebinding: no function of the package declares a module-level name `global`
+    (and so can rebind it), and none stores into an attribute of an imported module object"""
+    bad = []
+    for m in loader.package_modules():
+        mod = loader.module(m)
+        modnames = set()
+        for node in ast.walk(mod.tree):
+            if isinstance(node, ast.Import):
+                for a in node.names:
+                    modnames.add((a.asname or a.name).split(".")[0])
+            elif isinstance(node, ast.ImportFrom):
+                for a in node.names:
+                    # `from . import luaexec` style: the bound name is a module of the package
+                    if (node.module is None or node.level > 0 and not node.module) and a.name in loader.package_modules():
+                        modnames.add(a.asname or a.name)
+        for qual, fn in loader.all_functions(mod):
+            for n in effects._own_nodes(fn):
+                if isinstance(n, ast.Global):
+                    bad.append(f"{m}:{qual}: global {', '.join(n.names)}")
+                if isinstance(n, ast.Attribute) and isinstance(n.ctx, (ast.Store, ast.Del)) and isinstance(n.value, ast.Name) \
+                        and n.value.id in modnames and not _shadowed(fn, n.value.id):
+                    bad.append(f"{m}:{qual}: {loader.norm(n)[:60]} (store into a module object)")
+    rep.add_obligation("package#frame#no-function-rebinds-a-module-level-name", "frame",
+                       "proved" if not bad else "refuted", "syntactic",
+                       detail="; ".join(bad)[:400] or "no `global` declaration and no store into a module object in any function")
+
+
 def scan_class_state(rep):
     """state shared by all contexts of a process: no class of the package keeps a mutable container as a class
     attribute that some function mutates, and nothing is memoised except get_page (whose cache is per context
@@ -229,6 +257,7 @@ def main(tier):
     scan_module_state(rep)
     scan_cached_pages(rep)
     scan_class_state(rep)
+    scan_global_rebinding(rep)
     scan_field_lifecycle(rep)
     try:
         rep.bounded = check.run_repo_py("bounded/c09_run.py", {"tier": tier, "seed": rep.seed}, timeout=6000)
